@@ -50,6 +50,43 @@ def intArrayOf (d : String) : Option (List Nat) :=
 def intArrayToks (ns : List Nat) : List Tok :=
   .lbrack :: (ns.map (fun v => Tok.int (String.ofList (natDigits v)))).intersperse .comma ++ [.rbrack]
 
+/-! ### graph literals as tokens (twin of `graphText`) -/
+
+def costNumTok (s : String) : Tok := if s.toList.all isDigit then .int s else .float s
+def edgeToks (e : GEdge) : List Tok :=
+  .word e.to :: (match e.cost with
+    | some (neg, s) => .colon :: ((if neg then [.minus] else []) ++ [costNumTok s])
+    | none => [])
+def edgesToks : List GEdge → List Tok
+  | [] => []
+  | [e] => edgeToks e
+  | e :: e2 :: es => edgeToks e ++ .comma :: edgesToks (e2 :: es)
+def nodeToks (n : GNode) : List Tok :=
+  match n.edges with
+  | [] => [.word n.name]
+  | es => .word n.name :: .arrow :: .lbrack :: (edgesToks es ++ [.rbrack])
+/-- the nodes behind the first: `,␤ node` each -/
+def moreNodesToks : List GNode → List Tok
+  | [] => []
+  | n :: ns => .comma :: .nl :: (nodeToks n ++ moreNodesToks ns)
+/-- the tokens behind `Graph {` -/
+def graphBodyToks : List GNode → List Tok
+  | [] => [.rbrace]
+  | n :: ns => .nl :: (nodeToks n ++ (moreNodesToks ns ++ [.nl, .rbrace]))
+def graphToks (ns : List GNode) : List Tok := .word "Graph" :: .lbrace :: graphBodyToks ns
+
+/-- the graph a display text `Graph {␤    A -> [ B:2 ],␤    B␤}` stands for: the text through the lexer model and the
+reader of graph literals -/
+def graphOf (d : String) : Option (List GNode) :=
+  match lex d.toList with
+  | .ok (.word w :: .lbrace :: r) =>
+    if w == "Graph" then
+      match graphNodes r with
+      | some (ns, []) => some ns
+      | _ => none
+    else none
+  | _ => none
+
 mutual
 def fmtToks : PExp → List Tok
   | .int v => [.int (String.ofList (natDigits v))]
@@ -59,7 +96,10 @@ def fmtToks : PExp → List Tok
   | .prim d =>
     match intArrayOf d with
     | some ns => intArrayToks ns
-    | none => []
+    | none =>
+      match graphOf d with
+      | some g => graphToks g
+      | none => []
   | .var n => [.word n]
   | .cvar n idx => .word n :: fmtToksIdx idx
   | .access n idx => .word n :: fmtToksAcc idx
@@ -108,6 +148,31 @@ def isFloatText (s : String) : Bool :=
   let ip := cs.takeWhile isDigit
   match cs.dropWhile isDigit with
   | '.' :: fp => !ip.isEmpty && !fp.isEmpty && fp.all isDigit
+  | _ => false
+
+/-- the text of a cost: an integer or a decimal literal -/
+def costOKb : Option (Bool × String) → Bool
+  | none => true
+  | some (_, s) => (!s.toList.isEmpty && s.toList.all isDigit) || isFloatText s
+
+/-- the graphs of the printable fragment (decidable twin of `GraphOK`, plus the lexical condition on the costs) -/
+def graphOKb (ns : List GNode) : Bool :=
+  ns.all (fun n => isSimpleWord n.name && n.edges.all (fun e => isSimpleWord e.to && costOKb e.cost))
+    && !(ns.any (fun n => hasDupEdge n.edges))
+    && (match ns with
+        | ⟨n, e :: _⟩ :: _ => !(isKeyword n) && e.to != "true" && e.to != "false"
+        | _ => false)
+
+/-- a display text that is a graph of the printable fragment -/
+def graphCore (d : String) : Bool :=
+  (intArrayOf d).isNone &&
+    (match graphOf d with
+     | some ns => graphText ns == d && graphOKb ns
+     | none => false)
+
+/-- the value of a `where` constant may also be a graph literal -/
+def coreGraphValue : PExp → Bool
+  | .prim d => graphCore d
   | _ => false
 
 /-- a name the lexer reads as one word and the parser as a variable: `LETTER (LETTER | NUMBER)*`, no keyword -/
